@@ -675,3 +675,52 @@ MUTANTS += [
     {"id": "C15-r1-sequence-let-else-last-first", "prop": "C15", "expect": "R1-WIRING/automata::NFA::sequence/not-thompson",
      "edits": [(A, _R1_SEQ_EMPTY, _R1_SEQ_LET_ELSE2.replace("(ends.first(), ends.last())", "(ends.last(), ends.first())")), (A, _R1_SEQ_ENDS + "\n", "")]},
 ]
+
+# ---- round M7: helper that holds the index arithmetic of DFA::transition; Option combinators on ends.last(); table written cell by cell
+_TR_INDEX = "        self.states[self.lang_size * state.0 + symbol as usize]\n    }\n"
+_TR_HELPER = ("        self.states[self.cell_index(state, symbol)]\n    }\n\n"
+              "    fn cell_index(&self, state: DFAState, symbol: Symbol) -> usize {\n"
+              "        let row_offset = self.lang_size * state.0;\n        row_offset + symbol as usize\n    }\n")
+_SEQ_STOP = "        let (_, stop) = ends[ends.len() - 1];\n"
+_FLAT_OLD = """        let states = dfa_table
+            .into_iter()
+            .enumerate()
+            .flat_map(|(index, (state, edges))| {
+                assert_eq!(index, state.0);
+                (0..=Symbol::MAX).map(move |symbol| edges.get(&symbol).copied())
+            })
+            .collect::<Vec<Option<DFAState>>>();
+"""
+_FLAT_LOOP = """        let mut states: Vec<Option<DFAState>> = Vec::with_capacity(infos.len() * lang_size);
+        for (index, (state, edges)) in dfa_table.into_iter().enumerate() {
+            assert_eq!(index, state.0);
+            for symbol in 0..=Symbol::MAX {
+                states.push(edges.get(&symbol).copied());
+            }
+        }
+        debug_assert_eq!(states.len() % lang_size, 0);
+"""
+MUTANTS += [
+    {"id": "C15-benign-r4t-index-helper", "prop": "C15", "benign": True, "edits": [(A, _TR_INDEX, _TR_HELPER)]},
+    {"id": "C15-benign-r4t-index-helper-swapped", "prop": "C15", "benign": True,
+     "edits": [(A, _TR_INDEX, _TR_HELPER.replace("self.lang_size * state.0", "state.0 * self.lang_size").replace("row_offset + symbol as usize", "usize::from(symbol) + row_offset"))]},
+    {"id": "C15-r4t-index-helper-wrong-stride", "prop": "C15", "expect": "R4-TABLE/",
+     "edits": [(A, _TR_INDEX, _TR_HELPER.replace("self.lang_size * state.0", "self.states.len() * state.0"))]},
+    {"id": "C15-benign-r1-sequence-last-map-or", "prop": "C15", "benign": True,
+     "edits": [(A, _SEQ_STOP, "        let stop = ends.last().map_or(start, |&(_, stop)| stop);\n")]},
+    {"id": "C15-benign-r1-sequence-last-map-unwrap-or", "prop": "C15", "benign": True,
+     "edits": [(A, _SEQ_STOP, "        let stop = ends.last().map(|end| end.1).unwrap_or(start);\n")]},
+    {"id": "C15-r1-sequence-first-map-or", "prop": "C15", "expect": "R1-WIRING/automata::NFA::sequence/",
+     "edits": [(A, _SEQ_STOP, "        let stop = ends.first().map_or(start, |&(_, stop)| stop);\n")]},
+    {"id": "C15-r1-sequence-last-map-or-start", "prop": "C15", "expect": "R1-WIRING/automata::NFA::sequence/",
+     "edits": [(A, _SEQ_STOP, "        let stop = ends.last().map_or(start, |&(stop, _)| stop);\n")]},
+    {"id": "C15-benign-r4-table-nested-loop-push", "prop": "C15", "benign": True, "edits": [(A, _FLAT_OLD, _FLAT_LOOP)]},
+    {"id": "C15-r4-table-nested-loop-short-row", "prop": "C15", "expect": "R4-TABLE/automata::NFA::compile/row-width",
+     "edits": [(A, _FLAT_OLD, _FLAT_LOOP.replace("for symbol in 0..=Symbol::MAX", "for symbol in 0..Symbol::MAX"))]},
+    {"id": "C15-r4-table-nested-loop-wrong-key", "prop": "C15", "expect": "R4-TABLE/automata::NFA::compile/column-key",
+     "edits": [(A, _FLAT_OLD, _FLAT_LOOP.replace("edges.get(&symbol)", "edges.get(&symbol.wrapping_add(1))"))]},
+    {"id": "C15-r4-table-nested-loop-skipped-cell", "prop": "C15", "expect": "R4-DENSITY/automata::NFA::compile/states-not-from-guarded-rows",
+     "edits": [(A, _FLAT_OLD, _FLAT_LOOP.replace("                states.push(edges.get(&symbol).copied());\n", "                if symbol != 7 {\n                    states.push(edges.get(&symbol).copied());\n                }\n"))]},
+    {"id": "C15-r4-table-nested-loop-guard-after-row", "prop": "C15", "expect": "R4-DENSITY/",
+     "edits": [(A, _FLAT_OLD, _FLAT_LOOP.replace("            assert_eq!(index, state.0);\n", "").replace("            }\n        }\n", "            }\n            if index > 3 {\n                assert_eq!(index, state.0);\n            }\n        }\n"))]},
+]
